@@ -292,6 +292,14 @@ func (e *Engine) callFunction(s *State, fr *Frame, dst *ssa.Call, f *ssa.Functio
 		setResult(v)
 		return nil, false
 	}
+	// a site-local "at callee#n havoc" of the root wins over the callee's own contract: the call is replaced by an
+	// arbitrary result and a havoc of the callee's write set (over-approximation; the callee's requires are the
+	// business of the checks that own that contract)
+	if f.Blocks != nil && isFirstParty(f) && e.atHavoc(fr, anchor) {
+		rv := e.modularCall(s, fr, havocContract(key), key, f.Signature, args, site, anchor, f)
+		setResult(rv)
+		return nil, false
+	}
 	c := e.cs.Funcs[key]
 	if c != nil && c.Flags["inline"] == "" && (len(c.Ensures) > 0 || len(c.Requires) > 0 || len(c.RepInv) > 0 || c.Flags["modular"] != "" || c.Flags["trusted"] != "" || f.Blocks == nil) {
 		rv := e.modularCall(s, fr, c, key, f.Signature, args, site, anchor, f)
@@ -305,11 +313,6 @@ func (e *Engine) callFunction(s *State, fr *Frame, dst *ssa.Call, f *ssa.Functio
 	}
 	if !isFirstParty(f) && !e.inlineOK(f) {
 		rv := e.unknownCall(s, fr, key, f.Signature, e.isPureExtern(f), site)
-		setResult(rv)
-		return nil, false
-	}
-	if e.atHavoc(fr, anchor) {
-		rv := e.modularCall(s, fr, havocContract(key), key, f.Signature, args, site, anchor, f)
 		setResult(rv)
 		return nil, false
 	}
